@@ -24,6 +24,7 @@
    (harness/props/c18.py) and has known findings (known_findings.json, C18). *)
 From Coq Require Import ZArith List Bool.
 From PyecoreV Require Import Lib.PyBase Model.ResourceSet Proofs.ResourceSetProofs.
+From PyecoreV Require Model.Kernel Proofs.C01Proofs Proofs.C01Full Proofs.C03Proofs Proofs.WFBase Proofs.OwnAll Proofs.WFCorollaries.
 Import ListNotations.
 Open Scope Z_scope.
 
@@ -109,3 +110,24 @@ Example C18_witness :
   decode (El true [El true []; El false [El true []]; El true []]) 0 = Err ValueErr /\
   decode (El true [El true []; El true [El true []]]) 0 = Ok 4.
 Proof. vm_compute. repeat split; reflexivity. Qed.
+
+(* ---------- "whatever loads is well-formed", as far as the kernel theorems reach ----------
+   The decoders (xmi.py / json.py) build the loaded model by calling the public operations of the kernel
+   (attribute assignment, eSet, append/extend on collections, Resource.append).  The kernel theorems quantify
+   over EVERY sequence of such operations, so they apply to whatever sequence a decoder issues for whatever
+   document: the state it reaches satisfies the global invariant (C01 symmetry, C02 ownership) and C03's typing.
+   That the decoders use only these operations is not a theorem (it is the modelling of the loaders as clients of
+   the kernel); the oracle of harness/props/c18.py re-checks C01-C03 on every model that loads. *)
+Theorem C18_whatever_the_public_operations_build_is_well_formed :
+  forall m, WFBase.wf_mm m -> C01Full.ref_defaults_none m ->
+  forall ops, Forall (OwnAll.op_many m) ops ->
+    WFBase.WF m (WFCorollaries.reach m ops).
+Proof. exact WFCorollaries.reach_WF. Qed.
+Print Assumptions C18_whatever_the_public_operations_build_is_well_formed.
+
+Theorem C18_whatever_the_public_operations_build_is_well_typed :
+  forall m ops s,
+    C03Proofs.typed m s -> Forall (C03Proofs.op_ok m) ops ->
+    C03Proofs.typed m (fold_left (Kernel.next m) ops s).
+Proof. exact C03Proofs.typed_history. Qed.
+Print Assumptions C18_whatever_the_public_operations_build_is_well_typed.
